@@ -52,18 +52,31 @@ fn on_free(sz: usize) {
 const BIG: usize = 8 << 20;
 
 thread_local! {
-    static BIG_CACHE: Cell<(usize, usize)> = const { Cell::new((0, 0)) };
+    static BIG_CACHE: Cell<[(usize, usize); 4]> = const { Cell::new([(0, 0); 4]) };
+    static DIRTY_BOUND: Cell<usize> = const { Cell::new(usize::MAX) };
 }
+
+/// Announce that big blocks released on this thread from now on have been written to only in
+/// their first `bytes` bytes (`usize::MAX` = unknown). With a small bound a released block is
+/// re-zeroed over that prefix (plus one Wasm page) with a plain memset instead of a system call:
+/// MADV_DONTNEED costs TLB shootdowns on every core that runs a shard thread. The Wasm runner
+/// derives the bound from the artifact's maximal memory size, which the engine never exceeds.
+pub fn set_dirty_bound(bytes: usize) { let _ = DIRTY_BOUND.try_with(|d| d.set(bytes)); }
+
+const MEMSET_LIMIT: usize = 2 << 20;
 
 unsafe fn big_alloc(size: usize) -> *mut u8 {
     let cached = BIG_CACHE.try_with(|c| {
-        let (p, s) = c.get();
-        if p != 0 && s == size {
-            c.set((0, 0));
-            p
-        } else {
-            0
+        let mut slots = c.get();
+        for slot in slots.iter_mut() {
+            if slot.0 != 0 && slot.1 == size {
+                let p = slot.0;
+                *slot = (0, 0);
+                c.set(slots);
+                return p;
+            }
         }
+        0
     });
     if let Ok(p) = cached {
         if p != 0 {
@@ -86,13 +99,18 @@ unsafe fn big_alloc(size: usize) -> *mut u8 {
 }
 
 unsafe fn big_free(ptr: *mut u8, size: usize) {
+    let bound = DIRTY_BOUND.try_with(|d| d.get()).unwrap_or(usize::MAX);
     let kept = BIG_CACHE.try_with(|c| {
-        if c.get().0 == 0 && libc::madvise(ptr as *mut libc::c_void, size, libc::MADV_DONTNEED) == 0 {
-            c.set((ptr as usize, size));
-            true
-        } else {
-            false
+        let mut slots = c.get();
+        let Some(free) = slots.iter().position(|s| s.0 == 0) else { return false };
+        if bound <= MEMSET_LIMIT {
+            std::ptr::write_bytes(ptr, 0, (bound + 65536).min(size));
+        } else if libc::madvise(ptr as *mut libc::c_void, size, libc::MADV_DONTNEED) != 0 {
+            return false;
         }
+        slots[free] = (ptr as usize, size);
+        c.set(slots);
+        true
     });
     if kept != Ok(true) {
         libc::munmap(ptr as *mut libc::c_void, size);
